@@ -19,6 +19,24 @@ def stop_sync(w, ev):
     return all(w.started.values()) and all(int(c.cycle_count or 0) >= r for c in w.comps.values() if c.neighbors)
 
 
+def diagnose(vd, m):
+    """the same execution with stability 0 (a message is then only "the same as the previous one" when it is identical): if it ends
+    on the optimum, what went wrong is the stability cut-off (approx_match + SAME_COUNT)"""
+    from .. import algotrace as AT
+    out = {"start_messages": m["params"]["start_messages"], "five_or_more_variables": len(m["inst"]["vars"]) >= 5}
+    if not any(b[0] == "end_on_non_optimal_assignment" for b in vd["bad"]):
+        return out
+    try:
+        w = AT.run_one(m["inst"], m["algo"], dict(m["params"], stability=0), m["sched_seed"], policy=m["policy"], wire=m["wire"],
+                       max_steps=m.get("max_steps", 3000), timers=False, stop=stop_sync if m["algo"] == "maxsum" else None)
+        rec = AT.trace_record(0, w, ["endopt"])
+        verdicts, _, _ = AT.judge([rec])
+        out["exact_with_stability_0"] = not any(b[0] == "end_on_non_optimal_assignment" for b in verdicts.get(0, {}).get("bad", []))
+    except Exception as ex:        # (the diagnosis must not hide the violation)
+        out["exact_with_stability_0"] = "diagnosis failed: %s" % type(ex).__name__
+    return out
+
+
 def run(tier):
     quick = tier == "quick"
     plans = []
@@ -37,7 +55,7 @@ def run(tier):
                           filter=lambda i: i["nopt"] == 1, policies=["random", "lag", "starts_first"], **extra))
     v = run_algo_check("C05", tier, "model_checking", plans, CLAUSES,
                        nontrivial=lambda vd, m: len(m["inst"]["cons"]) > 0,
-                       key_extra=lambda vd, m: {"start_messages": m["params"]["start_messages"]},
+                       key_extra=diagnose,
                        rule="instances: tree/forest-shaped Gen_Dcop shapes (chains, stars, a ternary factor, unary factors, isolated variables, two "
                             "components) with tables over {0,1,2,4,8,-4} (dyadic: float arithmetic exact) and over {60,64,65,66,68,72} (near ties: differences far below "
                             "the default 10% `stability` decide the optimum), kept only when TLC finds exactly one optimal "
